@@ -5,9 +5,8 @@ table is Generated/Id3Table.lean (regenerated from /repo on every run).
 
 What is proved here, about the model (Model/Id3Text.lean, Model/Id3Spec.lean):
  (a) codec round trips for Latin-1, strict UTF-8, UTF-16 LE/BE and UTF-16 with BOM;
- (b) one `read_write_*` theorem per spec kind — all kinds of the frame table EXCEPT `RVASpec`
-     (only concrete instances and the mixed-width counterexample below) — and the uniform
-     statement `read_write_spec`;
+ (b) one `read_write_*` theorem per spec kind — all kinds of the frame table (`RVASpec`: under `RvaOK`, the
+     values `write` accepts; `read_write_rva` in Props/C12_More.lean) — and the uniform statement `read_write_spec`;
  (c) `frame_roundtrip` (v2.4 configuration) and `frame_roundtrip_v23`: `_readData` of
      `_writeData`, by induction over the spec list, for every class of the generated table;
  (d) `greedy_last` / `greedy_only_last`: the structural condition (c) needs, decided over the
@@ -15,8 +14,8 @@ What is proved here, about the model (Model/Id3Text.lean, Model/Id3Spec.lean):
  (e) `flags_equiv_*`: a frame carrying the v2.4 unsynchronisation flag, a data length
      indicator, or both, decodes like the plain frame.
 Nested frames (CHAP/CTOC `sub_frames`) enter (b), (c) relative to the nested reader/writer:
-the value is valid if that pair round-trips on it (`read_write_frames`); a general theorem
-for `readTag`/`writeTag` is not proved (concrete instance below).  zlib is outside the model.
+the value is valid if that pair round-trips on it (`read_write_frames`); the recursion is closed in
+Props/C12_More.lean (`id3_nested_tag_roundtrip`: `readTag`/`writeTag` themselves, any depth).  zlib is outside the model.
 -/
 import MutagenModel.Proofs.Id3Spec
 import MutagenModel.Generated.Id3Table
@@ -63,8 +62,8 @@ theorem utf16_bom_little_endian (t : Text) (h : ∀ x ∈ t, isScalar x = true) 
 
 /-! ## (b) one spec at a time -/
 
-/-- THE uniform spec-level statement: for every spec kind `k` of the frame table except
-`RVASpec`, every `Valid` value `v` (see `Mutagen.Id3.Valid`: ints in range, ASCII strings of
+/-- THE uniform spec-level statement: for every spec kind `k` of the frame table, every `Valid`
+value `v` (see `Mutagen.Id3.Valid`: ints in range, ASCII strings of
 the spec's length, any bytes, NUL-free text valid for the frame's encoding, non-empty lists
 of such, …): `read(write(v) ++ rest) = (v, rest)` — `rest = []` for the kinds that consume
 everything; under a v2.2/2.3 header `rest` after an encoded text must be empty or contain a
@@ -326,8 +325,8 @@ theorem flags_equiv_unsynch_datalen (sub : Hdr → Bytes → Except PyErr (List 
   fromData_congr sub h cls hv _ _ _ _ (by decide) (by decide) (by decide) (by decide)
     (by rw [fromDataBytes_unsynch_datalen h hv l4 d hl, fromDataBytes_plain h hu])
 
-/-! ## where the faithful model does NOT satisfy the property (replayed on the implementation
-by harness/props/c12.py under the keys `RVAD:mixed-width` and `APIC:v2.3:zero-tail`) -/
+/-! ## instances of two repaired findings (replayed on the implementation by harness/props/c12.py under the
+keys `RVAD:mixed-width` and `APIC:v2.3:zero-tail`; both fixed in /repo, see known_findings.json) -/
 
 /-- RVASpec pads the big-endian magnitudes on the left, so values of different byte widths
 survive (before the repair `[1, 70000]` came back as `[256, 70000]`) -/
@@ -338,7 +337,7 @@ theorem rva_mixed_width_instance :
      | .error _ => false) = true := by
   constructor <;> decide +kernel
 
-/-- equal widths (instance; no general RVASpec theorem is proved) -/
+/-- equal widths (instance; the general theorem is `read_write_rva`, Props/C12_More.lean) -/
 theorem rva_equal_width_instance :
     writeRva 12 (.list [.int (-2), .int 300, .int 65535, .int 0]) = .ok [0x02, 0x10, 0, 2, 1, 44, 255, 255, 0, 0] ∧
     (match readRva 12 [0x02, 0x10, 0, 2, 1, 44, 255, 255, 0, 0] with
